@@ -730,7 +730,7 @@ namespace vf
                   // the default message names the rule: compare with the type as written in the generated source (the expected
                   // text above was produced by the library's own demangle<>(), which would agree with itself)
                   static const std::string prefix = "parse error matching ";
-                  const std::string named = got.message.rfind( prefix, 0 ) == 0 ? canonical_type_name( got.message.substr( prefix.size() ) ) : std::string();
+                  const std::string named = got.message.rfind( prefix, 0 ) == 0 ? normalise_defaulted_arguments( canonical_type_name( got.message.substr( prefix.size() ) ) ) : std::string();
                   if( named != bn.cname ) {
                      vs.push_back( { "C05", "raise-identity:rule-name", "parse_error message '" + got.message + "' does not name the blamed rule " + bn.cname + " (read as: " + named + ")" } );
                   }
